@@ -38,4 +38,33 @@ theorem client_first_differs_iff (c r : AMap) :
   unfold clientFirstCT marshalCT
   by_cases hc : firstCT c = 0 <;> by_cases hr : firstCT r = 0 <;> simp [hc, hr]
 
+/-- In what the origin receives (`emit`): a request that carries a value to marshal (no form data,
+a method that may have a payload) is sent in the format picked by `marshalCT` of the two header
+maps — by `request_content_type_decides` the request's own content type whenever it has one. -/
+theorem emit_marshal_format (cl rq : VOwner) (m md : Nat) (path : List Seg) (o : ReqObs)
+    (he : emit cl rq m md path = some o)
+    (hp : payloadForbidden m ((cl.val F.allowGetPayload).scalar != 0) = false)
+    (hf : (mergeForm (cl.val F.form) (rq.val F.form)).isEmpty = true)
+    (hb : (rq.val F.body).scalar ≥ marshalFrom) :
+    o.body = .marsh (marshalCT (cl.val F.headers) (rq.val F.headers) == vCtXml) (rq.val F.body).scalar := by
+  simp only [emit] at he
+  split at he
+  · cases he
+  · injection he with he
+    subst he
+    simp [hp, hf]
+
+/-- … hence two clients that differ only in their own Content-Type send a request that names its
+content type in the same format. -/
+theorem emit_marshal_client_independent (cl cl' rq : VOwner) (m md : Nat) (path : List Seg) (o o' : ReqObs)
+    (he : emit cl rq m md path = some o) (he' : emit cl' rq m md path = some o')
+    (hp : payloadForbidden m ((cl.val F.allowGetPayload).scalar != 0) = false)
+    (hp' : payloadForbidden m ((cl'.val F.allowGetPayload).scalar != 0) = false)
+    (hf : (mergeForm (cl.val F.form) (rq.val F.form)).isEmpty = true)
+    (hf' : (mergeForm (cl'.val F.form) (rq.val F.form)).isEmpty = true)
+    (hb : (rq.val F.body).scalar ≥ marshalFrom) (hr : firstCT (rq.val F.headers) ≠ 0) :
+    o.body = o'.body := by
+  rw [emit_marshal_format cl rq m md path o he hp hf hb, emit_marshal_format cl' rq m md path o' he' hp' hf' hb,
+    (request_content_type_decides (cl.val F.headers) (cl'.val F.headers) (rq.val F.headers) hr).2]
+
 end Req.Props.C19Marshal
